@@ -703,9 +703,10 @@ def correspondence(ctx):
         add(line, "const", line, want, "const:" + line.split()[-1])
 
     # (a) values
-    n_vals = ctx.budget(4200, 120000)
+    n_vals = ctx.budget(4400, 120000)
+    n_boundary = len(c04.boundary_values())
     forms_used = {}
-    for v in value_stream(r, n_vals):
+    for vi, v in enumerate(value_stream(r, n_vals)):
         if c04.depth_of(v) > 200:
             continue
         t = valtext.to_text(v)
@@ -740,7 +741,7 @@ def correspondence(ctx):
         # non-shortest legal forms through the real decoder and the model decoder
         if real.startswith("ok") and in_published_domain(v):
             brine = rp()[1]
-            for mode in ("longest", "random"):
+            for mode in (("longest", "random") if vi < n_boundary or not quick else ("random",)):
                 pol = Policy(r, mode)
                 bs = refcodec.encode(v, pol)
                 for k, n in pol.used.items():
@@ -754,8 +755,11 @@ def correspondence(ctx):
                 c.count("load-of-%s-form:%s" % (mode, got.split(" ")[0] if got.startswith("ok") else got))
                 if got != want:
                     disagree("load-of-reference-bytes", bs.hex(), got, want)
-                add("brine dec " + bs.hex(), "dec", bs.hex(), want,
-                    "dec:%s:%d:%s" % (head, size_class(len(bs)), ",".join(sorted(pol.used))[:80]))
+                if len(bs) <= 40000:      # the list-based model decoder is quadratic on very long inputs
+                    add("brine dec " + bs.hex(), "dec", bs.hex(), want,
+                        "dec:%s:%d:%s" % (head, size_class(len(bs)), ",".join(sorted(pol.used))[:80]))
+                else:
+                    c.count("load-of-%s-form:too-long-for-the-model-decoder" % mode)
     c.extra["reference_forms_used"] = forms_used
     ctx.log("values done: %d op lines so far" % len(lines))
 
@@ -880,7 +884,8 @@ def oracle_search(ctx, corr, broken):
             return None
         v = shrink_value(v, r)
         msg = check_value_real(v, r) or msg
-        sig = "value:" + msg.split(" ")[0][:20]
+        sig = ("value:dump-raises" if msg.startswith("dump(v) raised") else "value:dump-differs" if msg.startswith("dump(v)")
+               else "value:load-raises" if " raised " in msg else "value:load-differs")
         if sig in known:
             return None
         return dict(kind="input", part="value", value=valtext.to_text(v)[:4000], repr=repr(v)[:300]), msg, sig
